@@ -25,8 +25,10 @@ echo "## existing client tests with mutant (must be all ok):"
 for P in "$@"; do
   echo "## check $P against mutant:"
   OUT=$(mktemp -d /tmp/mutout.XXXX)
-  VERIF_REPO=$WT VERIF_OUT=$OUT VERIF_BUDGET_S=${BUDGET:-40} ${VERIF_HOME:-/verif}/check $P quick 2>&1 | cut -c1-400 | grep -a "VIOLATION\|violation class\|minimised\|runs (\|HARNESS" | head -8
-  echo "exit=${PIPESTATUS[0]}"
+  VERIF_REPO=$WT VERIF_OUT=$OUT VERIF_BUDGET_S=${BUDGET:-40} ${VERIF_HOME:-/verif}/check $P quick > $OUT/check.log 2>&1; rc=$?
+  cut -c1-400 $OUT/check.log | grep -a "VIOLATION\|violation class\|minimised\|runs (\|HARNESS" | head -8
+  grep -a -A30 "HARNESS" $OUT/check.log | cut -c1-200 | head -40
+  echo "exit=$rc"
   rm -rf $OUT/evidence; ls $OUT/replays/* 2>/dev/null | head -3
 done
 git -C $WT checkout -q -- . ; git -C $WT reset -q --hard 2>/dev/null
